@@ -2,6 +2,8 @@ package main
 
 import (
 	"context"
+	"encoding/binary"
+	"errors"
 	"fmt"
 	"sort"
 	"strings"
@@ -9,6 +11,7 @@ import (
 
 	"github.com/gopcua/opcua/server"
 	"github.com/gopcua/opcua/ua"
+	"github.com/gopcua/opcua/uacp"
 	"github.com/gopcua/opcua/uapolicy"
 	"github.com/gopcua/opcua/uasc"
 )
@@ -37,6 +40,7 @@ func uriOf(name string) string {
 
 // secMatrix: server configurations (subsets of policy/mode pairs, with and without a key) x client policy/mode.
 func secMatrix(seed uint64) {
+	openTimeout = 1500 * time.Millisecond
 	idx := policyIndex()
 	scert, skey := selfSigned("urn:verif:server")
 	ccert, ckey := selfSigned("urn:verif:client")
@@ -84,15 +88,68 @@ func secMatrix(seed uint64) {
 			o["opened"] = err == nil
 			if err != nil {
 				o["err"] = err.Error()
+				o["status"] = errStatus(err)
 			} else {
-				// the channel is usable: discovery needs no session
+				// discovery needs no session; CreateSession is the first thing any session needs
 				_, err := rc.call(&ua.GetEndpointsRequest{EndpointURL: s.url}, nil, 3*time.Second)
 				o["served"] = err == nil
+				_, err = rc.call(&ua.CreateSessionRequest{ClientDescription: &ua.ApplicationDescription{ApplicationName: &ua.LocalizedText{}}, EndpointURL: s.url,
+					ClientNonce: make([]byte, 32), ClientCertificate: ccfg.Certificate, RequestedSessionTimeout: 60000}, nil, 3*time.Second)
+				o["session"] = err == nil
+				if err != nil {
+					o["session_status"] = errStatus(err)
+				}
 				rc.close()
 			}
+			emit(o)
+		}
+		// raw OpenSecureChannel frames: pairs the library's client refuses to ask for, and an unknown policy URI
+		var port int
+		fmt.Sscanf(s.url, "opc.tcp://localhost:%d", &port)
+		for _, rw := range []struct {
+			uri  string
+			p, m int
+		}{{ua.SecurityPolicyURINone, 0, 2}, {ua.SecurityPolicyURINone, 0, 3}, {ua.SecurityPolicyURINone, 0, 0}, {ua.SecurityPolicyURINone, 0, 4},
+			{ua.SecurityPolicyURINone, 0, 1}, {"http://example.org/UnknownPolicy", 99, 1}} {
+			o := map[string]any{"t": "sec", "raw": true, "config": c.name, "enabled": enabled, "advertised": advertised, "has_key": c.key,
+				"client": [2]int{rw.p, rw.m}, "client_name": fmt.Sprintf("raw:%d/%d", rw.p, rw.m), "urls": len(s.srv.URLs())}
+			conn, err := helloConn(port)
+			if err != nil {
+				o["err"] = err.Error()
+				emit(o)
+				continue
+			}
+			conn.Write(opnFrameWith(rw.uri, ua.MessageSecurityMode(rw.m), 1, 1))
+			typ, body, err := readMessage(conn, 700*time.Millisecond)
+			switch {
+			case err != nil:
+				o["opened"], o["err"] = false, err.Error()
+			case typ == "OPN":
+				_, svc, derr := ua.DecodeService(body)
+				_, isOPN := svc.(*ua.OpenSecureChannelResponse)
+				o["opened"] = derr == nil && isOPN
+			case typ == "ERR" && len(body) >= 4:
+				o["opened"] = false
+				o["status"] = binary.LittleEndian.Uint32(body)
+			default:
+				o["opened"], o["err"] = false, "unexpected "+typ
+			}
+			conn.Close()
 			emit(o)
 		}
 		s.srv.Close()
 	}
 	emit(map[string]any{"t": "done"})
+}
+
+func errStatus(err error) uint32 {
+	var code ua.StatusCode
+	if errors.As(err, &code) {
+		return uint32(code)
+	}
+	var ue *uacp.Error
+	if errors.As(err, &ue) {
+		return ue.ErrorCode
+	}
+	return 0
 }
